@@ -693,6 +693,15 @@ class _V0:
         return getattr(self._v, a)
 
 
+def replay_alter_field(obligation=None, model=None, meta=None):
+    """native: coincident / successive Alter events on one field compose in device order (contracts/bounded_events.py)"""
+    from contracts import bounded_events
+    n, bad = bounded_events.run_coincident_alter()
+    if bad:
+        return {'confirmed': True, 'inputs': bad, 'observed': bad.get('observed'), 'native_cmd': 'contracts/bounded_events.py run_coincident_alter'}
+    return {'confirmed': False, 'tried': n}
+
+
 def add_obligations(pack, tier, pid='C06'):
     pack.assume('System.store_switch_times is verified in two mechanical slices cut at `for i, j in zip(out, names)`: the head (collection, sort, '
                 'selection) guarantees what the tail (merge loop) requires of `out`, `names`: ascending, paired; not decided for the head: that no '
@@ -701,5 +710,5 @@ def add_obligations(pack, tier, pid='C06'):
                 'which the mask holds; np.append(a, b) is a followed by b (assumed numpy contracts)')
     items = [(store_switch_times_head(pid), None, replay_store_switch_times), (store_switch_times_tail(pid, True), None, replay_store_switch_times), (store_switch_times_tail(pid, False), WIT_F28, replay_store_switch_times),
              (fn_tds.tds_init(pid),), (is_time(pid),), (model_switch_action(pid),), (system_switch_action(pid),),
-             (toggle_u_switch(pid),), (fault_apply(pid),), (fault_clear(pid),), (alter_field(pid),)]
+             (toggle_u_switch(pid),), (fault_apply(pid),), (fault_clear(pid),), (alter_field(pid), None, replay_alter_field)]
     run_contracts(pack, items)
